@@ -31,6 +31,33 @@ func c03Round2(c *Ctx) {
 		c.Check(f.OK, "R03g", f.Key, f.Pos, "bounded", f.Detail)
 	}
 	c.runControl("R03g length octet control (ctl/lenoct.Put)", "lenoct.Put", lengthOctets)
+	c.Rule("R03m", "on the signing paths no store goes into a map that may be a package-level table", 10)
+	{
+		var roots []*ssa.Function
+		for _, field := range []string{"Sign", "Transform", "Fixup"} {
+			for fn := range p.registeredSignerFuncs(field) {
+				roots = append(roots, fn)
+			}
+		}
+		if tr := p.ifaceNamed("signers", "Transformer"); tr != nil {
+			for _, t := range p.implementersOf(tr) {
+				for _, m := range []string{"Apply", "GetReader"} {
+					if f := p.methodOf(t, m); f != nil {
+						roots = append(roots, f)
+					}
+				}
+			}
+		}
+		within := p.moduleReachOpt(roots, false)
+		for _, f := range sharedTablesNotWritten(p, within) {
+			c.Check(f.OK, "R03m", f.Key, f.Pos, "", f.Detail)
+		}
+	}
+	c.runControl("R03m shared table control (ctl/nilmap.Register)", "nilmap.Merge", func(cp *Prog) []gFinding { return sharedTablesNotWritten(cp, nil) })
+	c.Rule("R03l", "a stream is freed in the allocation table it was stored in: one mini-stream cutoff predicate at every site of lib/comdoc (shared with C18 R18e)", 5)
+	c18RuleCutoff = "R03l"
+	c18Cutoff(c, p.pkgFuncs("lib/comdoc"))
+	c18RuleCutoff = "R18e"
 	c.Rule("R03j", "the Debian signer's archive reader reads from the byte counter itself, so counted positions are archive positions", 1)
 	for _, f := range counterDirectlyUnderReader(p) {
 		c.Check(f.OK, "R03j", f.Key, f.Pos, f.Detail, f.Detail)
@@ -425,7 +452,27 @@ func arSpanPadded(p *Prog, fn *ssa.Function) (out []gFinding) {
 		key := fmt.Sprintf("%s removed span#%d", p.FName(fn), i+1)
 		switch {
 		case !r.size:
-			out = append(out, gFinding{Key: key, Pos: p.Pos(ci.Pos()), OK: true, Detail: "the old length is not computed from ar.Header.Size"})
+			// measured, not computed: a length taken from stream positions is even only when the code makes it so
+			evened := dependsOn(args[2], func(x ssa.Value) bool {
+				bo, ok := x.(*ssa.BinOp)
+				if !ok {
+					return false
+				}
+				switch bo.Op {
+				case token.REM:
+					return isIntConst(bo.Y, 2)
+				case token.AND:
+					return isIntConst(bo.Y, 1) || isIntConst(bo.X, 1)
+				case token.AND_NOT:
+					return isIntConst(bo.Y, 1)
+				case token.QUO:
+					return isIntConst(bo.Y, 2)
+				case token.SHR:
+					return isIntConst(bo.Y, 1)
+				}
+				return false
+			})
+			out = append(out, gFinding{Key: key, Pos: p.Pos(ci.Pos()), OK: evened, Detail: "the number of bytes removed for the old _gpg member is neither computed from ar.Header.Size nor made even anywhere in its derivation: a length measured from stream positions after draining the member leaves out the padding newline of an odd-sized member (the ar reader consumes it only when it moves on), which then stays behind and misaligns everything after it"})
 		case r.rounded:
 			out = append(out, gFinding{Key: key, Pos: p.Pos(ci.Pos()), OK: true, Detail: "header size rounded up to even"})
 		default:
